@@ -14,7 +14,9 @@
 use vcore::util::{decode, product};
 use vcore::{Cfg, Check, Cx, Finding, Meta, SUB_SETUP, Tier, Value, Violation, json};
 
+mod bodies;
 mod capture;
+mod clibodies;
 mod clidirs;
 mod clipart;
 mod pkgs;
@@ -39,7 +41,11 @@ const PATHY_FLAVOUR_WIDE: usize = 3;
 enum Unit {
     Cli,
     CliDirs,
+    /// `check` / `test` on richer test bodies, one unit per position
+    CliBodies { position: usize },
     Callers,
+    /// richer test bodies in every position: one unit per placement
+    Bodies { placement: usize },
     Pkgs { shape: usize, k: usize, flavour: usize, from: u64, to: u64 },
 }
 
@@ -75,6 +81,12 @@ fn enumerated(tier: Tier, shape: usize, k: usize, flavour: usize) -> bool {
 fn unit_table(tier: Tier) -> Vec<Unit> {
     // the process launches take longest and run in one worker: start them first
     let mut v = vec![Unit::Cli, Unit::CliDirs, Unit::Callers];
+    for position in 0..clibodies::N_UNITS {
+        v.push(Unit::CliBodies { position });
+    }
+    for placement in 0..bodies::PLACEMENTS.len() {
+        v.push(Unit::Bodies { placement });
+    }
     let kmax = tier.pick(4, 6);
     let mut seen_k0 = std::collections::HashSet::new();
     for k in 0..=kmax {
@@ -124,6 +136,7 @@ impl Check for C19 {
         match unit_table(cx.cfg.tier)[unit].clone() {
             Unit::Cli => clipart::run(cx),
             Unit::CliDirs => clidirs::run(cx),
+            Unit::CliBodies { position } => clibodies::run(position, cx),
             Unit::Callers => {
                 if !cx.case(SUB_SETUP) {
                     return;
@@ -136,6 +149,21 @@ impl Check for C19 {
                 for sub in 0..product(&pkgs::caller_radices()) {
                     let c = pkgs::build_caller(sub);
                     parta::run_caller(cx, sub, &c, &rt, &mut cap);
+                }
+            }
+            Unit::Bodies { placement } => {
+                if !cx.case(SUB_SETUP) {
+                    return;
+                }
+                let rt = host::runtime();
+                let Ok(mut cap) = capture::Capture::start() else {
+                    cx.violation("machinery", SUB_SETUP, json!({}), json!("stdout capture"), json!("failed"));
+                    return;
+                };
+                for sub in 0..(bodies::N_BODIES * bodies::N_POSITIONS) as u64 {
+                    let p = pkgs::build_body_pkg(placement, sub);
+                    cx.count("body_packages", 1);
+                    parta::run_pkg(cx, sub, &p, &rt, &mut cap);
                 }
             }
             Unit::Pkgs { shape, k, flavour, from, to } => {
@@ -158,11 +186,19 @@ impl Check for C19 {
         match unit_table(cfg.tier)[unit].clone() {
             Unit::Cli => clipart::describe(sub),
             Unit::CliDirs => clidirs::describe(sub),
+            Unit::CliBodies { position } => clibodies::describe(position, sub),
             Unit::Callers => {
                 if sub == SUB_SETUP {
                     json!({"kind": "caller_setup"})
                 } else {
                     pkgs::build_caller(sub).to_json()
+                }
+            }
+            Unit::Bodies { placement } => {
+                if sub == SUB_SETUP {
+                    json!({"kind": "bodies_setup", "placement": placement})
+                } else {
+                    pkgs::build_body_pkg(placement, sub).to_json()
                 }
             }
             Unit::Pkgs { shape, k, flavour, .. } => {
@@ -181,7 +217,7 @@ impl Check for C19 {
         let kmax = cfg.tier.pick(4, 6);
         Meta {
             rule: format!(
-                "Part A: every package = (module tree of 1-3 modules, k <= {kmax} test blocks, module of every block, accept/reject of every block, flavour); all M^k placements x 2^k outcome vectors x {} flavours (trees 0-3: k = 5 flavours {:?}, k = 6 flavours {K6_FLAVOURS:?}; quick tier, k = 4: flavours {:?}; trees 4-9, whose module names collide with the path machinery (pkg.pkg, pkg.pkg.pkg, test, super_, std, dep, a/ab, a_b/b): quick flavours {PATHY_FLAVOURS_QUICK:?} for k <= 3 and, trees 4-5 only, flavour {PATHY_FLAVOUR_WIDE} for k = 4, thorough flavours {PATHY_FLAVOURS_THOROUGH:?} for k <= 4, and, trees 4-5 only, flavour {PATHY_FLAVOUR_WIDE} for k = 5 and k = 6); compiled twice, run_tests twice per compilation, every TestCase of get_tests run once, get_function with two signatures for every test/function name. Callers: every (place, call form, kind of same-named function, outcome). Part B: every (sub-command form, file kind) pair, one process launch each; second unit: three directory packages with colliding sub-module names (pkg/mod.roto and pkg/pkg/mod.roto; test, super_, std, dep; a, ab, a_b, a_b.b), a `test foo` in every module, every accept/reject vector over the modules under `roto test <dir>` (check and run on the all-reject and all-accept vectors). Non-trivial: a package with at least one accepting and one rejecting block; every caller case; a launch that must fail or that must run an entry function",
+                "Part A: every package = (module tree of 1-3 modules, k <= {kmax} test blocks, module of every block, accept/reject of every block, flavour); all M^k placements x 2^k outcome vectors x {} flavours (trees 0-3: k = 5 flavours {:?}, k = 6 flavours {K6_FLAVOURS:?}; quick tier, k = 4: flavours {:?}; trees 4-9, whose module names collide with the path machinery (pkg.pkg, pkg.pkg.pkg, test, super_, std, dep, a/ab, a_b/b): quick flavours {PATHY_FLAVOURS_QUICK:?} for k <= 3 and, trees 4-5 only, flavour {PATHY_FLAVOUR_WIDE} for k = 4, thorough flavours {PATHY_FLAVOURS_THOROUGH:?} for k <= 4, and, trees 4-5 only, flavour {PATHY_FLAVOUR_WIDE} for k = 5 and k = 6); compiled twice, run_tests twice per compilation, every TestCase of get_tests run once, get_function with two signatures for every test/function name. Callers: every (place, call form, kind of same-named function, outcome). Part B: every (sub-command form, file kind) pair, one process launch each; second unit: three directory packages with colliding sub-module names (pkg/mod.roto and pkg/pkg/mod.roto; test, super_, std, dep; a, ab, a_b, a_b.b), a `test foo` in every module, every accept/reject vector over the modules under `roto test <dir>` (check and run on the all-reject and all-accept vectors). Body family (bodies.rs): (12 well-typed test bodies x pass/fail + 6 ill-typed bodies) x (nothing | fn before the block) x (nothing | fn | filtermap | const | test after it) x 5 placements (only module; root or sub-module of a two-module tree, other module empty or not), Part A with an extra parse+typecheck-only run, Part B `check` and `test` on each body in each of the 10 single-file positions and as last item of the root / sub-module of a directory package. Non-trivial: a package with at least one accepting and one rejecting block; every caller case; a launch that must fail or that must run an entry function",
                 FLAVOURS.len(),
                 WIDE_FLAVOURS,
                 QUICK_K4_FLAVOURS
@@ -199,6 +235,10 @@ impl Check for C19 {
                 "module_trees": SHAPES.iter().map(|s| s.iter().map(|(n, p)| format!("{n}<{p}")).collect::<Vec<_>>()).collect::<Vec<_>>(),
                 "flavours": FLAVOURS.iter().map(|f| format!("{f:?}")).collect::<Vec<_>>(),
                 "caller_cases": product(&pkgs::caller_radices()),
+                "bodies": (0..bodies::N_BODIES).map(|b| bodies::body(b).name).collect::<Vec<_>>(),
+                "body_positions": (0..bodies::N_POSITIONS).map(bodies::position_name).collect::<Vec<_>>(),
+                "body_placements_part_a": bodies::PLACEMENTS.len(),
+                "cli_body_units": (0..clibodies::N_UNITS).map(clibodies::unit_name).collect::<Vec<_>>(),
                 "cli_forms": clipart::FORMS.iter().map(|(c, a)| format!("{c} <file> {}", a.join(" "))).collect::<Vec<_>>(),
                 "cli_file_kinds": clipart::kinds().iter().map(|k| k.name).collect::<Vec<_>>(),
                 "cli_dir_trees": clidirs::TREES.iter().map(|(n, m)| json!({"name": n, "modules": m.iter().map(|x| x.0).collect::<Vec<_>>()})).collect::<Vec<_>>(),
